@@ -991,9 +991,11 @@ class EngineSigs:
                 tn = toks[0]
             else:
                 raise AnalysisError(f'{ETYPE}::fromPythonTypeEncoding: unrecognised case pattern `{" ".join(toks)}`')
-            st = body[1]
-            ctx.need(len(st) == 1 and st[0][0] == 'expr', f'{ETYPE}::fromPythonTypeEncoding: arm {tn} is not a single expression')
-            self.arms.append((tn, binder, X.from_scala(st[0][1])))
+            if body[0] == 'block':
+                st = body[1]
+                ctx.need(len(st) == 1 and st[0][0] == 'expr', f'{ETYPE}::fromPythonTypeEncoding: arm {tn} is not a single expression')
+                body = st[0][1]
+            self.arms.append((tn, binder, X.from_scala(body)))
         # TDict.elementType
         td = X.from_scala(S.load(f'{VIRT}TDict.scala').val('TDict', 'elementType'))
         if td[0] == 'sel' and td[2] == 'asInstanceOf':
@@ -1319,7 +1321,7 @@ def run(ctx: Ctx) -> None:
                        'extracted from EType.fromPythonTypeEncoding (Scala) through a frozen EType layout table; primitives, missing-bit addressing, ndarray order, representation '
                        'structs and the entry points are compared likewise. No repository code is run.')
     ctx.rule('R1', 'byte_reader read_X/write_X: same struct format, promised width/signedness, "="/"<" order, offset advances by the width', 15)
-    ctx.rule('R2', 'wire program of the writer == wire program of the reader per class; both overridden together; presence tests guard the encoded component; freeze flags forwarded', 36)
+    ctx.rule('R2', 'wire program of the writer == wire program of the reader per class; both overridden together; presence tests guard the encoded component; freeze flags forwarded', 33)
     ctx.rule('R3', 'missing bits: element e <-> bit e%8 of byte e//8, LSB first, ceil(n/8) bytes (writer idiom, reader addressing, lookup_bit)', 7)
     ctx.rule('R4', 'layout of each Python type == frozen layout of the EType chosen by fromPythonTypeEncoding; every encodable Python type has an arm', 16)
     ctx.rule('R5', 'ndarray: int64 shape header, column-major element order on both sides, raw-buffer fast path dead or absent', 4)
